@@ -12,6 +12,7 @@ import (
 	"fmt"
 	"os"
 	"os/exec"
+	"runtime"
 	"sort"
 	"strconv"
 	"sync"
@@ -280,6 +281,16 @@ func sortedKeys[V any](m map[string]V) []string {
 	return ks
 }
 
+// workers: in-process concurrency of calls into the implementation (VERIF_WORKERS)
+func workers(def int) int {
+	if s := os.Getenv("VERIF_WORKERS"); s != "" {
+		if v, err := strconv.Atoi(s); err == nil && v > 0 {
+			return v
+		}
+	}
+	return def
+}
+
 func envSeed() uint64 {
 	if s := os.Getenv("VERIF_SEED"); s != "" {
 		if v, err := strconv.ParseUint(s, 10, 64); err == nil {
@@ -324,4 +335,98 @@ func readJSON(path string, v any) {
 		fmt.Fprintln(os.Stderr, err)
 		os.Exit(2)
 	}
+}
+
+// ---------- watchdog: memory / wall-clock guard for in-process calls into /repo ----------
+
+type watchdog struct {
+	mu     sync.Mutex
+	active map[int]wdJob
+	next   int
+}
+type wdJob struct {
+	desc  any
+	start time.Time
+}
+
+var wd = &watchdog{active: map[int]wdJob{}}
+
+// Track registers a piece of work that calls into the implementation; call the returned
+// function when it is done.
+func Track(desc any) func() {
+	wd.mu.Lock()
+	id := wd.next
+	wd.next++
+	wd.active[id] = wdJob{desc, time.Now()}
+	journalWrite(map[string]any{"s": id, "input": desc})
+	wd.mu.Unlock()
+	return func() {
+		wd.mu.Lock()
+		delete(wd.active, id)
+		journalWrite(map[string]any{"d": id})
+		wd.mu.Unlock()
+	}
+}
+
+// journal: one line per started / finished call into the implementation (env VERIF_JOURNAL).
+// If the process is killed by a panic in a goroutine of the implementation, the driver reads
+// the unfinished entries and re-runs each alone (--replay) to find the crashing input.
+var journalFile *os.File
+
+func journalWrite(v any) {
+	if journalFile == nil {
+		p := os.Getenv("VERIF_JOURNAL")
+		if p == "" {
+			return
+		}
+		f, err := os.OpenFile(p, os.O_CREATE|os.O_WRONLY|os.O_APPEND, 0o644)
+		if err != nil {
+			return
+		}
+		journalFile = f
+	}
+	b, err := json.Marshal(v)
+	if err != nil {
+		return
+	}
+	_, _ = journalFile.Write(append(b, '\n'))
+}
+
+// StartWatchdog aborts the run — writing the result with a violation that lists the work in
+// flight — when the heap passes memLimit bytes or a tracked job runs longer than maxJob.
+func StartWatchdog(res *Result, out string, start time.Time, memLimit uint64, maxJob time.Duration) {
+	go func() {
+		for {
+			time.Sleep(200 * time.Millisecond)
+			var ms runtime.MemStats
+			runtime.ReadMemStats(&ms)
+			why := ""
+			var culprits []any
+			wd.mu.Lock()
+			if ms.HeapAlloc > memLimit {
+				why = fmt.Sprintf("heap grew past %d MiB", memLimit>>20)
+				for _, j := range wd.active {
+					culprits = append(culprits, j.desc)
+				}
+			} else {
+				for _, j := range wd.active {
+					if time.Since(j.start) > maxJob {
+						why = fmt.Sprintf("a call into the implementation did not return within %s", maxJob)
+						culprits = append(culprits, j.desc)
+					}
+				}
+			}
+			wd.mu.Unlock()
+			if why == "" {
+				continue
+			}
+			if len(culprits) > 8 {
+				culprits = culprits[:8]
+			}
+			// not a verdict by itself: the driver re-runs every in-flight input alone in a fresh
+			// process and reports the one that reproduces (exit status 3 = aborted by watchdog)
+			fmt.Fprintf(os.Stderr, "fatal error: watchdog: %s\n", why)
+			os.Exit(3)
+		}
+	}()
 }
